@@ -55,14 +55,14 @@ WORKERS = {"quick": 1, "thorough": 14}
 
 def gen_cases(ctx):
     rng = ctx.rng
-    for i in range(ctx.scale(700, 30000)):
+    for i in range(ctx.scale(3500, 90000)):
         inst = gen.gen_instance(rng, None, max_jobs=rng.choice([2, 3, 4, 5]), max_machines=rng.choice([2, 3, 4, 5]))
         yield {"kind": "views", "instance": inst, "seed": rng.randrange(2**31)}
-    for i in range(ctx.scale(700, 30000)):
+    for i in range(ctx.scale(3500, 90000)):
         inst = gen.gen_instance(rng, rng.choice(gen.NONFLEX_CLASSES), max_jobs=rng.choice([2, 3, 4]),
                                 max_machines=rng.choice([2, 3, 4]))
         yield {"kind": "sequences", "instance": inst, "seed": rng.randrange(2**31)}
-    for i in range(ctx.scale(70, 2500)):
+    for i in range(ctx.scale(210, 5000)):
         inst = gen.gen_instance(rng, None, max_jobs=3, max_machines=3)
         yield {"kind": "immutability", "instance": inst, "seed": rng.randrange(2**31),
                "consumer": i % 7}
